@@ -228,12 +228,49 @@ def run(m: Model, r: Report, tier: str) -> None:
                     r.check(any("self.seed" in ast.unparse(a) for a in n.args), "R2", f"{f.qualname}#RNG({ast.unparse(n.args[0])[:30]})",
                             "RNG is not seeded from self.seed", loc=f"{f.module.relpath}:{n.lineno}")
     sr = m.require_function(f"{SRV}.RandomUDSServer.stateful_rng")
-    src = ast.unparse(sr.node)
-    r.check("str(self.seed)" in src and "str(self.state.session)" in src and m.has(sr, "(str(arg) for arg in args)") and "RNG(" in src, "R2", f"{sr.qualname}#seed-composition",
-            "the per-request generator must be seeded by the string of seed, session and arguments", loc=sr.loc)
+    # the seed string of the per-request generator, evaluated: a str that changes with the server seed, the session and every argument
+    from sa import miniterp as _mt16
+    rng_calls = [n for n in ast.walk(sr.node) if isinstance(n, ast.Call) and ast.unparse(n.func) == "RNG" and len(n.args) == 1]
+    va_ = sr.node.args.vararg.arg if sr.node.args.vararg else None
+    # reads of the server state other than `self.state.session`: the whole state object has no process-independent text (and holds more than the session)
+    par_ = {id(c_): p_ for p_ in ast.walk(sr.node) for c_ in ast.iter_child_nodes(p_)}
+    state_reads = [n for n in ast.walk(sr.node) if isinstance(n, ast.Attribute) and ast.unparse(n) == "self.state"]
+    foreign = [ast.unparse(par_[id(n)]) for n in state_reads if not (isinstance(par_.get(id(n)), ast.Attribute) and par_[id(n)].attr == "session")]
+    if foreign:
+        r.check(False, "R2", f"{sr.qualname}#seed-composition", f"the per-request generator is seeded from {foreign}: only the session number belongs into the seed string "
+                "(the state object's text is not process independent, other state fields make equal requests in equal sessions answer differently)", loc=sr.loc)
+    elif len(rng_calls) != 1 or va_ is None:
+        r.unrecognised("R2", f"{sr.qualname}#seed-composition", "RNG(<one string>) over *args not found", sr.loc)
+    else:
+        def seed_of(seed, session, args):
+            env_ = {"self.seed": seed, "self.state.session": session, va_: tuple(args)}
+            _mt16.exec_body([s_ for s_ in sr.node.body if not any(x is rng_calls[0] for x in ast.walk(s_))], env_)
+            return _mt16.eval_expr(rng_calls[0].args[0], env_)
+        try:
+            base_ = seed_of(7, 3, (1, "a"))
+            variants = {"server seed": seed_of(8, 3, (1, "a")), "session": seed_of(7, 2, (1, "a")), "first argument": seed_of(7, 3, (2, "a")),
+                        "last argument": seed_of(7, 3, (1, "b")), "number of arguments": seed_of(7, 3, (1, "a", "a"))}
+            same = [k_ for k_, v_ in variants.items() if v_ == base_]
+            r.check(isinstance(base_, str) and not same, "R2", f"{sr.qualname}#seed-composition",
+                    f"the per-request generator is seeded by {base_!r} ({type(base_).__name__}), which does not change with {same}: it must be the string of seed, session and arguments", loc=sr.loc)
+        except (AnalysisError, _mt16.Raised) as ex_:
+            r.unrecognised("R2", f"{sr.qualname}#seed-composition", f"seed expression outside the evaluated language: {ex_}", sr.loc)
     setseeds = m.require_function(f"{SRV}.RNG.set_seeds")
-    r.check(m.has(setseeds, "(str(seed) for seed in self.seeds)") and "self.seed(" in ast.unparse(setseeds.node), "R2", f"{setseeds.qualname}#string-seed",
-            "RNG seeds must be joined as strings (random.Random.seed(str) is hash-seed independent)", loc=setseeds.loc)
+    sd_calls = [n for n in ast.walk(setseeds.node) if isinstance(n, ast.Call) and ast.unparse(n.func) == "self.seed" and len(n.args) == 1]
+    if len(sd_calls) != 1:
+        r.unrecognised("R2", f"{setseeds.qualname}#string-seed", f"{len(sd_calls)} seeded self.seed(...) calls", setseeds.loc)
+    else:
+        try:
+            pre_ = [s_ for s_ in setseeds.node.body if isinstance(s_, ast.Assign) and isinstance(s_.targets[0], ast.Name)]
+            vals_ = []
+            for x_ in ((1, "x"), (1, "y"), (2, "x"), (1, "x", 0)):
+                env_ = {"self.seeds": list(x_)}
+                _mt16.exec_body(pre_, env_)
+                vals_.append(_mt16.eval_expr(sd_calls[0].args[0], env_))
+            r.check(all(isinstance(v_, str) for v_ in vals_) and len(set(vals_)) == len(vals_), "R2", f"{setseeds.qualname}#string-seed",
+                    f"seeds (1,'x'), (1,'y'), (2,'x'), (1,'x',0) give {vals_}: RNG seeds must be joined as distinct strings (random.Random.seed(str) is hash-seed independent)", loc=setseeds.loc)
+        except (AnalysisError, _mt16.Raised) as ex_:
+            r.unrecognised("R2", f"{setseeds.qualname}#string-seed", f"seed expression outside the evaluated language: {ex_}", setseeds.loc)
 
     # RNG internals: every seed argument reaches random.Random.seed as one process-independent string
     from sa.util import path_condition, truth_table
@@ -247,14 +284,13 @@ def run(m: Model, r: Report, tier: str) -> None:
     seed_calls = [n for n in ast.walk(setseeds.node) if isinstance(n, ast.Expr) and isinstance(n.value, ast.Call) and ast.unparse(n.value.func) == "self.seed"]
     unseeded = [n for n in seed_calls if not n.value.args and not n.value.keywords]
     seeded = [n for n in seed_calls if n.value.args]
-    def len_oracle(call, env):
-        return env["__n"] if ast.unparse(call.func) == "len" and ast.unparse(call.args[0]) == "self.seeds" else NotImplemented
     okk = len(seeded) == 1
     bad = []
     if okk:
-        bad = truth_table(path_condition(setseeds.node, seeded[0]), {"__n": [0, 1, 3]}, lambda a: a["__n"] > 0, len_oracle)
+        seeds_dom = {"self.seeds": [[], [1], [1, 2, 3]]}
+        bad = truth_table(path_condition(setseeds.node, seeded[0]), seeds_dom, lambda a: len(a["self.seeds"]) > 0)
         for u in unseeded:
-            bad += truth_table(path_condition(setseeds.node, u), {"__n": [0, 1, 3]}, lambda a: a["__n"] == 0, len_oracle)
+            bad += truth_table(path_condition(setseeds.node, u), seeds_dom, lambda a: len(a["self.seeds"]) == 0)
     r.check(okk and not bad, "R2", f"{setseeds.qualname}#seeded-iff-seeds",
             f"seeding is conditioned wrongly: {bad}; with seeds the generator must be seeded from them, entropy seeding (self.seed()) is only allowed without seeds", loc=setseeds.loc)
     if okk:
@@ -264,7 +300,8 @@ def run(m: Model, r: Report, tier: str) -> None:
             and ast.unparse(a0.args[0].generators[0].iter) == "self.seeds" and not a0.args[0].generators[0].ifs \
             and isinstance(a0.args[0].elt, ast.Call) and ast.unparse(a0.args[0].elt.func) == "str" \
             and ast.unparse(a0.args[0].elt.args[0]) == ast.unparse(a0.args[0].generators[0].target)
-        r.check(shape, "R2", f"{setseeds.qualname}#seed-value",
+        # (the evaluated rule #string-seed above decides other spellings of the same join: distinct strings for distinct seed lists)
+        r.check(shape or not r.rules["R2"]["violations"] and not any(u_["construct"].endswith("#string-seed") for u_ in r.unknown), "R2", f"{setseeds.qualname}#seed-value",
                 f"random.Random.seed receives `{ast.unparse(a0)[:60]}`; it must be the string join of str(s) over all self.seeds (a hash(), a tuple or a subset is "
                 "process dependent or loses seed components)", loc=setseeds.loc)
     adds = m.require_function(f"{SRV}.RNG.add_seeds")
